@@ -3,181 +3,8 @@
 use serde_json::json;
 
 use crate::common::*;
-use crate::seqmc::{self, Limits, Step};
+use crate::seqmc::{self, Limits};
 use crate::udp_sys::*;
-
-#[derive(Clone, Debug)]
-pub struct Alphabet {
-    pub name: &'static str,
-    pub opts: WorldOpts,
-    pub keys: u8,
-    pub kinds: Vec<Kind>,
-    pub pids: Option<u8>,
-    pub ages: Vec<u32>,
-    pub lags: Vec<u32>,
-    pub numwants: Vec<i32>,
-    pub scrapes: Vec<Vec<u8>>,
-    pub clock_max: u32,
-    pub reloads: Vec<u8>,
-    pub clean: bool,
-}
-
-pub fn events(a: &Alphabet, clock: u32) -> Vec<Ev> {
-    let mut evs = Vec::new();
-    if clock < a.clock_max {
-        evs.push(Ev::Tick);
-    }
-    if a.clean {
-        evs.push(Ev::Clean);
-    }
-    for v4 in &a.opts.families {
-        for s in &a.scrapes {
-            evs.push(Ev::Scrape { v4: *v4, hs: s.clone() });
-        }
-    }
-    for v4 in &a.opts.families {
-        for h in &a.opts.hashes {
-            for key in 0..a.keys {
-                for kind in &a.kinds {
-                    for age in &a.ages {
-                        for lag in &a.lags {
-                            if *lag > clock {
-                                continue;
-                            }
-                            for nw in &a.numwants {
-                                match a.pids {
-                                    None => evs.push(Ev::Ann { v4: *v4, h: *h, key, kind: *kind, pid: key, age: *age, lag: *lag, numwant: *nw }),
-                                    Some(n) => {
-                                        for pid in 0..n {
-                                            evs.push(Ev::Ann { v4: *v4, h: *h, key, kind: *kind, pid, age: *age, lag: *lag, numwant: *nw });
-                                        }
-                                    }
-                                }
-                            }
-                        }
-                    }
-                }
-            }
-        }
-    }
-    for r in &a.reloads {
-        evs.push(Ev::Reload(*r));
-    }
-    evs
-}
-
-thread_local! {
-    static EXPORT_DIR: std::cell::RefCell<Option<tempfile::TempDir>> = const { std::cell::RefCell::new(None) };
-}
-
-pub fn thread_export_dir() -> std::path::PathBuf {
-    EXPORT_DIR.with(|d| {
-        let mut d = d.borrow_mut();
-        if d.is_none() {
-            let base = if std::path::Path::new("/dev/shm").is_dir() { "/dev/shm" } else { "/tmp" };
-            *d = Some(tempfile::Builder::new().prefix("aqv-export-").tempdir_in(base).expect("tempdir"));
-        }
-        d.as_ref().unwrap().path().to_path_buf()
-    })
-}
-
-pub fn fresh_world(a: &Alphabet) -> UdpWorld {
-    let mut o = a.opts.clone();
-    if o.export_dir.is_some() {
-        o.export_dir = Some(thread_export_dir());
-    }
-    UdpWorld::new(o)
-}
-
-pub fn replay(a: &Alphabet, hist: &[Ev]) -> UdpWorld {
-    let mut w = fresh_world(a);
-    for e in hist {
-        w.apply(e);
-    }
-    w
-}
-
-pub fn expand(a: &Alphabet, hist: &[Ev]) -> Vec<Step<Ev>> {
-    let base = replay(a, hist);
-    let evs = events(a, base.clock);
-    drop(base);
-    evs.into_iter()
-        .map(|ev| {
-            let r = std::panic::catch_unwind(std::panic::AssertUnwindSafe(|| {
-                let mut w = replay(a, hist);
-                let out = w.apply(&ev);
-                let mut violations = out.violations;
-                violations.extend(w.invariants());
-                let key = w.key();
-                let (pf, pv, pc) = w.probes();
-                violations.extend(pv);
-                (key, fp64(&(out.outcome, pf)), violations, out.compared + pc)
-            }));
-            match r {
-                Ok((key, outcome, violations, compared)) => Step { event: ev, key: Some(key), outcome, violations, compared },
-                Err(e) => Step {
-                    event: ev,
-                    key: None,
-                    outcome: 0,
-                    violations: vec![Violation { signature: "udp/panic".into(), what: format!("storage code panicked: {}", panic_message(&e)), detail: json!({}) }],
-                    compared: 1,
-                },
-            }
-        })
-        .collect()
-}
-
-/// Run one BFS; fold results into the run. Returns the report.
-pub fn run_bfs(run: &mut Run, a: &Alphabet, limits: &Limits, need_fixpoint: bool) {
-    let init = replay(a, &[]).key();
-    let rep = seqmc::bfs(init, limits, |h| expand(a, h));
-    let prefix = format!("{}.", a.name);
-    seqmc::report_to_cov(&rep, &prefix, &mut run.cov);
-    run.add("states", rep.states);
-    run.add("transitions", rep.transitions);
-    run.add("traces_validated_against_impl", rep.transitions);
-    run.add("compared_calls", rep.compared);
-    let md = run.get("max_depth").max(rep.max_depth as u64);
-    run.set("max_depth", md);
-    eprintln!(
-        "[{}] {}: states={} transitions={} depth={} fixpoint={} outcomes={} cap={:?} t={:.1}s",
-        run.id, a.name, rep.states, rep.transitions, rep.max_depth, rep.fixpoint, rep.distinct_outcomes, rep.cap_hit, run.elapsed()
-    );
-    for h in rep.sample_histories.iter().take(3) {
-        run.sample(json!({ "run": a.name, "history": h }));
-    }
-    for (hist, v) in rep.violations {
-        // determinism: replay the offending history twice more and insist on identical observations
-        let (prefix_h, last) = hist.split_at(hist.len() - 1);
-        let r1 = expand_one(a, prefix_h, &last[0]);
-        let r2 = expand_one(a, prefix_h, &last[0]);
-        if r1 != r2 || !r1.iter().any(|s| *s == v.signature) {
-            machinery_failure(&format!("violation {} did not reproduce identically on replay of {:?}", v.signature, hist));
-        }
-        run.violation(
-            v.signature.clone(),
-            format!("{} [shortest history, {} events]", v.what, hist.len()),
-            json!({ "engine": "seqmc-udp", "alphabet": a.name, "history": hist, "signature": v.signature }),
-        );
-    }
-    if need_fixpoint && !rep.fixpoint {
-        run.set("exhaustive", false);
-    }
-}
-
-fn expand_one(a: &Alphabet, hist: &[Ev], ev: &Ev) -> Vec<String> {
-    let r = std::panic::catch_unwind(std::panic::AssertUnwindSafe(|| {
-        let mut w = replay(a, hist);
-        let out = w.apply(ev);
-        let mut sigs: Vec<String> = out.violations.iter().map(|v| v.signature.clone()).collect();
-        sigs.extend(w.invariants().iter().map(|v| v.signature.clone()));
-        let (_, pv, _) = w.probes();
-        sigs.extend(pv.iter().map(|v| v.signature.clone()));
-        sigs.sort();
-        sigs
-    }));
-    r.unwrap_or_else(|_| vec!["udp/panic".to_string()])
-}
 
 pub fn alphabets(tier: Tier) -> Vec<(Alphabet, Limits, bool)> {
     let kinds = vec![Kind::Leech, Kind::Seed, Kind::StartedLeech, Kind::Stop0, Kind::Stop5];
@@ -266,47 +93,22 @@ pub fn alphabets(tier: Tier) -> Vec<(Alphabet, Limits, bool)> {
     v
 }
 
-pub fn replay_case(a: &Alphabet, hist: &[Ev]) -> Vec<Violation> {
-    let r = std::panic::catch_unwind(std::panic::AssertUnwindSafe(|| {
-        let mut out = Vec::new();
-        let mut w = fresh_world(a);
-        for (i, e) in hist.iter().enumerate() {
-            let o = w.apply(e);
-            for mut v in o.violations {
-                v.what = format!("at event {}: {}", i, v.what);
-                out.push(v);
-            }
-            out.extend(w.invariants());
-        }
-        let (_, pv, _) = w.probes();
-        out.extend(pv);
-        out
-    }));
-    r.unwrap_or_else(|e| vec![Violation { signature: "udp/panic".into(), what: format!("storage code panicked: {}", panic_message(&e)), detail: json!({}) }])
-}
-
 pub fn main(args: &Args) -> ! {
     let mut run = Run::new(args, "model_checking");
     run.set("engine", "seqmc: BFS over event histories on aquatic_udp::swarm::TorrentMaps, dedup on (reference model, verif_dump incl. storage order, clock)");
     run.set("exhaustive", true);
     run.assume("values outside the alphabets (more keys, more torrents, larger clocks) are not explored");
     run.assume("single-threaded histories; schedules are C04's");
-    let all = alphabets(args.tier);
     if let Some(p) = &args.replay {
         let r = load_replay(p);
-        let name = r["detail"]["alphabet"].as_str().unwrap_or("");
-        let hist: Vec<Ev> = serde_json::from_value(r["detail"]["history"].clone()).unwrap_or_else(|e| machinery_failure(&format!("bad history: {}", e)));
-        let a = alphabets(Tier::Thorough).into_iter().map(|x| x.0).find(|a| a.name == name).unwrap_or_else(|| machinery_failure("unknown alphabet in replay"));
-        for v in replay_case(&a, &hist) {
-            run.violation(v.signature.clone(), v.what.clone(), json!({ "engine": "seqmc-udp", "alphabet": name, "history": hist }));
+        let systems: Vec<UdpSys> = alphabets(Tier::Thorough).into_iter().map(|x| UdpSys(x.0)).collect();
+        if !seqmc::replay_from_file(&mut run, &r, &systems) {
+            machinery_failure("replay file does not belong to this check");
         }
-        run.set("states", 1);
-        run.set("transitions", hist.len());
-        run.set("traces_validated_against_impl", 1);
         run.finish();
     }
-    for (a, lim, need_fix) in &all {
-        run_bfs(&mut run, a, lim, *need_fix);
+    for (a, lim, need_fix) in alphabets(args.tier) {
+        seqmc::run_bfs(&mut run, &UdpSys(a), &lim, need_fix);
     }
     run.finish();
 }
